@@ -204,6 +204,7 @@ let parse_c17_line (l : string) : call list =
     match String.split_on_char ':' (Hashtbl.find nodes id) with
     | ["sc"; t; v; ch] -> KSys (n_of_int id, ni t, ni v, List.map build (kids ch))
     | ["nm"; name; t; v; ch] -> KNamed (n_of_int id, ni name, ni t, ni v, List.map build (kids ch))
+    | ["nd"; name; t; v; ch] -> KNamedDirect (n_of_int id, ni name, ni t, ni v, List.map build (kids ch))
     | ["sy"; sid; v; ch] -> KSpawned (n_of_int id, ni sid, ni v, List.map build (kids ch))
     | ["sp"; sid; t] -> KSpawn (n_of_int id, ni sid, ni t)
     | ["ds"; sid] -> KDespawn (n_of_int id, ni sid)
